@@ -39,7 +39,19 @@ META = {
 }
 
 
+def wrap_flag(wrap):
+    """JSON form of the flag -> the object handed to the constructor (truthy values other than True included)."""
+    if wrap == 'np_true':
+        import numpy as np
+        return np.bool_(True)
+    if wrap == 'np_cmp':
+        import numpy as np
+        return np.array([3])[0] > 2          # the result of a numpy comparison
+    return wrap
+
+
 def mk_world(model, kind, dims, wrap):
+    wrap = wrap_flag(wrap)
     if kind == 'space':
         return Envs.SpaceWorld(model, *dims, wrap_env=wrap)
     if kind == 'discrete':
@@ -71,7 +83,8 @@ class World:
 
 class Harness:
     def __init__(self, kind, dims, wrap, agents=('a',), rich=True, step=0.5):
-        self.kind, self.dims, self.wrap = kind, list(dims), wrap
+        self.kind, self.dims, self.wrap = kind, list(dims), bool(wrap_flag(wrap))
+        self.wrap_arg = wrap
         self.agents = list(agents)
         self.rich = rich
         self.step = step
@@ -154,7 +167,7 @@ class Harness:
     def fresh(self):
         w = World()
         w.model = Core.Model(seed=1)
-        w.env = w.model.environment = mk_world(w.model, self.kind, self.dims, self.wrap)
+        w.env = w.model.environment = mk_world(w.model, self.kind, self.dims, self.wrap_arg)
         w.agents = {k: Core.Agent(k, w.model) for k in self.agents}
         w.pos = {k: None for k in self.agents}      # reference positions as Fractions, None = not resident
         w.last = None
@@ -348,6 +361,43 @@ def configs(tier):
     return out
 
 
+def odd_flag_configs():
+    # truthy wrap flags that are not the object True
+    out = []
+    for flag in (1, 'np_true', 'np_cmp'):
+        out += [('discrete', [3, 1, 0], flag, ['a'], True, 1), ('space', [1.5, 1, 0], flag, ['a'], True, 0.5),
+                ('grid', [3, 2], flag, ['a'], True, 1), ('line', [3], flag, ['a'], True, 1)]
+    return out
+
+
+def replaced_world_case(case):
+    """A model's world is replaced by another one (same default id, other kind / extents): moves in the new world are
+    governed by the new world's extents only."""
+    from mc.engine.seams import reset_library
+    reset_library()
+    model = Core.Model(seed=1)
+    first = model.environment = mk_world(model, case['first'][0], case['first'][1], case['wrap'])
+    a0 = Core.Agent('p', model)
+    first.add_agent(a0)
+    first.move(a0, 10 ** 6, 10 ** 6, 10 ** 6)
+    first.move(a0, -1, 0, 0)
+    kind, dims = case['second']
+    second = mk_world(model, kind, dims, case['wrap'])
+    model.set_environment(second)
+    h = Harness(kind, dims, case['wrap'])
+    w = World()
+    w.model, w.env = model, second
+    w.agents = {'a': Core.Agent('a', model)}
+    w.pos = {'a': None}
+    w.last = None
+    steps = 0
+    for op in ([['add0', 'a']] + [['move', 'a', d] for d in h._menu['deltas']] +
+               [['move_to', 'a', t] for t in h._menu['targets'][:6]] + [['move', 'a', d] for d in h._menu['deltas'][:8]]):
+        h.apply(w, op)
+        steps += 1
+    return steps
+
+
 def two_agent_configs(tier):
     base = [('discrete', [3, 2, 0]), ('space', [2.5, 1, 0]), ('grid', [3, 2])]
     if tier == 'thorough':
@@ -369,6 +419,19 @@ def explore_config(ctx, item):
 def run(ctx):
     items = [(c, 60) for c in configs(ctx.tier)]
     items += [(c, 3 if ctx.tier == 'quick' else 4) for c in two_agent_configs(ctx.tier)]
+    items += [(c, 60) for c in odd_flag_configs()]
+    pairs = [(('grid', [4, 3]), ('grid', [2, 5])), (('space', [3, 3, 0]), ('space', [1.5, 1, 0])),
+             (('grid', [2, 2]), ('discrete', [3, 1, 2])), (('discrete', [3, 3, 3]), ('line', [2]))]
+    for fst, snd in pairs:
+        for wrap in (False, True):
+            case = {'leg': 'replaced_world', 'first': list(fst), 'second': list(snd), 'wrap': wrap}
+            ctx.traces += 1
+            try:
+                ctx.transitions += hbfs._guard(replaced_world_case, case)
+            except Violation as v:
+                ctx.report(case, v)
+                return
+    ctx.leg('replaced_world', cases=2 * len(pairs))
     # biggest first for load balance
     items.sort(key=lambda it: -(len(it[0][3]) * 10 ** 6 + max(1, it[0][1][0]) * max(1, (it[0][1] + [1, 1])[1]) *
                                 max(1, (it[0][1] + [1, 1])[2])))
@@ -379,5 +442,8 @@ def run(ctx):
 
 
 def replay(case):
+    if case['leg'] == 'replaced_world':
+        hbfs._guard(replaced_world_case, case)
+        return
     c = case['config']
     hbfs.replay_case(Harness(c['kind'], c['dims'], c['wrap'], c['agents'], c['rich'], c['step']), case)
